@@ -180,19 +180,23 @@ CLAIMED = {
          "Lean proves the parameter-list round trip on tokens (text lexing is the harness's)"),
    technique="Lean 4 proof (induction over the parameter list with the renderer's and parser's state machines) + differential correspondence + ast/inspect oracle"),
  "C11": dict(
-   text=("A Lean 4 model of RenderAnnotation (to an expression tree and its text), get_imports_for_annotation and the naming of the TypedDict "
-         "classes ReplaceTypedDictsWithStubs generates, with theorems about the rendering shapes (Optional iff NoneType is a member, "
-         "Tuple[()]), that no class stub is generated for a TypedDict-free type (no_td_no_classes; with C06: none at limit 0) and that every name "
-         "a field of a generated TypedDict class needs is in the stub's import list (td_fields_imported). The property "
-         "itself — the annotation text, evaluated with only the names the stub provides, yields the rendered type — is a stated Lean "
-         "proposition (RenderedDenotes) that is NOT proved: it is evaluated directly on every generated stub (import block really executed "
-         "in an empty namespace, TypedDict class stubs registered, each annotation evaluated and compared structurally). The model is tied "
-         "to /repo by comparing annotation text, import sets (per annotation and of a whole ModuleStub) and generated class names. Two genuine "
-         "defects of the pinned tree are open known findings whose predicates are decided by the Lean model; a third was fixed (1051a80)."),
+   text=("Lean 4 theorem MT.C11.rendered_denotes_partial over a model of RenderAnnotation (expression tree + text), the module-prefix "
+         "stripping of FunctionStub.render (stripParts: longest module first, only whole leading name parts) and an evaluator of annotation "
+         "expressions in the namespace a stub provides (Model/EvalAnno.lean: imports executed in order over the target module's classes and "
+         "builtins; Optional/Union/Tuple[()]/Tuple[X, ...] as typing reads them): for every TypedDict-free type, every class-name table and "
+         "every namespace in which each name the annotation uses denotes what was rendered (decidable hypothesis namesOk), evaluating the "
+         "rendered, stripped annotation gives a type with exactly the members of the rendered type (both readings of Any). Also: shape "
+         "lemmas, no class stub for a TypedDict-free type (no_td_no_classes), every name a field of a generated TypedDict class needs is "
+         "imported (td_fields_imported), Union admits exactly what an argument admits (union_members). The full statement incl. generated "
+         "classes (RenderedDenotes) is evaluated on every generated stub: the import block is really executed in an empty namespace, the "
+         "class stubs registered, every annotation evaluated and compared with the rendered type. Tied to /repo by comparing annotation "
+         "text, stripped stub text, import sets (per annotation and of a whole ModuleStub), generated class names and the evaluation "
+         "result of every TypedDict-free annotation (model evaluator vs Python's eval of the real stub)."),
    ref="DESIGN.md section 4 C11",
-   note=("partial (weakest of the proof-level claims): Lean proves shape lemmas only; the denotation clause is a direct check on the implementation; "
+   note=("partial: the denotation theorem covers the TypedDict-free fragment under the hypothesis namesOk; its negation is the recorded finding "
+         "KF-C11-same-name-two-modules (witness proved in Props/C11.lean); types with generated classes are checked directly; "
          "open findings: KF-C11-td-class-name-collision, KF-C11-same-name-two-modules"),
-   technique="Lean 4 model + shape theorems; executable correspondence (text, imports, class names); direct evaluation of generated stubs"),
+   technique="Lean 4 proof (mutual structural induction over types: evaluator o strip o render preserves members) + executable correspondence (text, imports, class names, evaluation) + direct evaluation of generated stubs"),
  "C14": dict(
    text=("Lean 4 theorems with set/dict iteration order, hash seeds and memory layout modelled as arbitrary permutation and duplication of "
          "lists: the members of typing.Union[...] are exactly the members of its arguments, so they do not depend on argument order or "
